@@ -127,6 +127,13 @@ where
                 if nullable {
                     new_ctx.or(&new_is.items[&(pidx, dot)]);
                 }
+                if new_ctx.iter_set_bits(..).next().is_none() {
+                    // Nothing can follow s_ridx here (the symbols after it derive no sentence), so
+                    // there are no LR(1) items to add: adding items with an empty context would
+                    // put items (and, transitively, their descendants) in the closure that are
+                    // not part of the LR(1) closure.
+                    continue;
+                }
 
                 for ref_pidx in grm.rule_to_prods(s_ridx).iter() {
                     if new_is.add(*ref_pidx, SIdx(StorageT::zero()), &new_ctx) {
